@@ -1775,6 +1775,14 @@ class Interp(object):
                 x = x.item()
             if isinstance(x, bool):
                 return int(x)
+            if isinstance(x, (Poly, Rat)) and not (x.is_real() if isinstance(x, Poly) else (x.n.is_real() and x.d.is_real())):
+                # float() of a complex number: a python complex refuses (TypeError), a numpy complex scalar hands back its
+                # real part with a ComplexWarning - the analysis does not know which it is: decided per type world
+                global TYPE_WORLD_USED
+                TYPE_WORLD_USED = True
+                if TYPE_WORLD == 'python':
+                    raise InterpTypeError("float() argument must be a string or a real number, not 'complex'")
+                return I.externals.scalar_fn('real', x) if hasattr(I.externals, 'scalar_fn') else x
             if isinstance(x, (int, Fr, Poly, Rat)):
                 return x
             if isinstance(x, str):
